@@ -40,3 +40,20 @@ Definition run_c09 (cs : list c09case) : list (N * N * N) * N * N :=
          (if (m =? 1)%N then (skipped + 1)%N else skipped) (if (s =? 0)%N then (checked + 1)%N else checked)
     end in
   go 0%N cs [] 0%N 0%N.
+
+(* ---- one run of _process_send_queue: blocks by their packet counts, the send_data results in order, and how each block ended ---- *)
+From SG Require Import Gen.SendQueue Model.SendQueue.
+Record c09qcase := { q_blocks : list nat; q_writes : list bool; q_results : list (option bool) }.
+Definition ob_eqb9 (a b : option bool) : bool := match a, b with Some x, Some y => Bool.eqb x y | None, None => true | _, _ => false end.
+Definition run_c09q (cs : list c09qcase) : list (N * N * N) * N * N :=
+  let fix go (i : N) (cs : list c09qcase) (bad : list (N * N * N)) (checked : N) :=
+    match cs with
+    | [] => (rev bad, 0%N, checked)
+    | c :: r =>
+      let m := if list_eqb ob_eqb9 (process_queue send_queue_after_failure (q_blocks c) (q_writes c)) (q_results c) then 0%N else 16%N in
+      (* the statement: with enough answers from the connection no block stays unresolved *)
+      let enough := (fold_right Nat.add 0 (q_blocks c) <=? length (q_writes c))%nat in
+      let s := if enough && existsb (fun r => match r with None => true | _ => false end) (q_results c) then 38%N else 0%N in
+      go (i + 1)%N r (if (m =? 0)%N && (s =? 0)%N then bad else (i, m, s) :: bad) (checked + 1)%N
+    end in
+  go 0%N cs [] 0%N.
